@@ -110,11 +110,14 @@ Section Model.
   (* nrotx_i = skv - skv^T *)
   Definition nrotx (n : vec) (j k : ax) : T := rot_nrotx N (skv n j k) (skv n k j).
 
+  (* the matrix R_i from cos_alpha_i, sin_alpha[i] and the axis nrot_i *)
+  Definition rot_matrix_of (c s : T) (n : vec) : mat :=
+    mmk (fun j k => rot_R N c (outer n j k) (eye j k) s (nrotx n j k)).
   Definition rot_matrix (ra1 dec1 ra2 dec2 : T) : mat :=
     let c := rot_cosa ra1 dec1 ra2 dec2 in
     let s := rot_sin_alpha N (rot_alpha N c) in
     let n := rot_axis (rot_vec1 ra1 dec1) (rot_vec2 ra2 dec2) in
-    mmk (fun j k => rot_R N c (outer n j k) (eye j k) s (nrotx n j k)).
+    rot_matrix_of c s n.
 
   (* ra, dec of a 3-vector as the code computes them at the end *)
   Definition rot_radec (w : vec) : T * T :=
